@@ -211,3 +211,41 @@ def set_orders(regular=None, singular=None):
         b.GLOBAL_PARAMETERS.quadrature.regular = regular
     if singular is not None:
         b.GLOBAL_PARAMETERS.quadrature.singular = singular
+
+
+def explore_space_options(b, grid, kind, deg, flags=True, max_paths=6000, fixed=None):
+    """Run the real space constructor with a SYMBOLIC support mask (one boolean per element) and symbolic
+    include_boundary_dofs / truncate_at_segment_edge flags; returns (mask vars, flag vars, [(pc, space, exc)], explorer).
+    Every path of the constructor's decisions over these booleans is explored (the non-empty-support cases)."""
+    import bempp_cl.api.space.space as sp
+    from .sym import SB, Explorer
+
+    NE = grid.number_of_elements
+    mvars = [z3.Bool("m%d" % i) for i in range(NE)]
+    fv = [z3.Bool("include_boundary_dofs"), z3.Bool("truncate_at_segment_edge")]
+    orig_set = sp.SpaceBuilder.set_support
+
+    def set_support(self, support):
+        return orig_set(self, np.array([bool(x) for x in support], dtype=bool))
+
+    def build():
+        supp = np.empty(NE, dtype=object)
+        for i in range(NE):
+            supp[i] = SB(mvars[i])
+
+        def fake_process(grid_, support_elements, segments, swapped_normals):
+            if kind == "DP":  # the discontinuous spaces use the mask as a NumPy index: decide it up front (2^N paths)
+                return np.array([bool(x) for x in supp], dtype=bool), np.ones(NE, dtype=np.int32)
+            return supp.copy(), np.ones(NE, dtype=np.int32)
+
+        with patched((sp, "_process_segments", fake_process), (sp.SpaceBuilder, "set_support", set_support)):
+            kw = {}
+            if flags:
+                kw = {"include_boundary_dofs": SB(fv[0]), "truncate_at_segment_edge": SB(fv[1])}
+            if fixed:
+                kw.update(fixed)
+            return b.function_space(grid, kind, deg, scatter=False, **kw)
+
+    ex = Explorer(assume=[z3.Or(*mvars)], max_paths=max_paths)
+    res = ex.run(build)
+    return mvars, fv, res, ex
